@@ -82,6 +82,7 @@ def trace_cfg(prop, soft, flags):
   FixDetach = %s
   FixUpdater = %s
   CfgOK <- CfgAll
+  Features <- FeatAll
   RaceTolerant <- TraceTolerant
   Soft = %s
   Prop = "%s"
@@ -96,7 +97,7 @@ CHECK_DEADLOCK FALSE
 
 def gen_cfg(name, **kw):
     """Write a Gen_Subs cfg into the spec copy used by ctx.tlc (done through `extra` spec dir)."""
-    d = dict(NS=2, MaxEvents=1, MaxTerm=1, MaxSrcTerm=1, MaxHB=0, UseD="FALSE", StartModes="StartOK", CfgOK="CfgRace", MaxProbes=0, SeqSetup="TRUE", AllowCloseSub="FALSE")
+    d = dict(NS=2, MaxEvents=1, MaxTerm=1, MaxSrcTerm=1, MaxHB=0, UseD="FALSE", StartModes="StartOK", CfgOK="CfgRace", MaxProbes=0, SeqSetup="TRUE", AllowCloseSub="FALSE", Features="FeatNone")
     d.update(kw)
     d.update({k: _tla_bool(v) for k, v in fix_flags().items()})
     return """CONSTANTS
@@ -112,6 +113,7 @@ def gen_cfg(name, **kw):
   FixDetach = %(FixDetach)s
   FixUpdater = %(FixUpdater)s
   CfgOK <- %(CfgOK)s
+  Features <- %(Features)s
   AllowCloseSub = %(AllowCloseSub)s
   MaxProbes = %(MaxProbes)s
   SeqSetup = %(SeqSetup)s
@@ -140,14 +142,17 @@ FKS = ["num-static", "num-var", "arr-var", "true-var", "false-var", "str-var"]  
 def to_schedule(tag, idx, b, kv, fk="num-static"):
     n = len(b["key"])
     fetch = b.get("fetch") or [False] * n
-    return {"id": "%s-%06d" % (tag, idx), "nopark": [],
-            "subs": [{"key": b["key"][i], "filt": b["filt"][i], "conn": b["conn"][i], "fetch": bool(fetch[i])} for i in range(n)],
+    rerr = b.get("rerr") or [False] * n
+    hookfail = b.get("hookfail") or [False] * n
+    return {"id": "%s-%06d" % (tag, idx), "nopark": [], "hooks": bool(b.get("hooks")), "sync": bool(b.get("sync")),
+            "subs": [{"key": b["key"][i], "filt": b["filt"][i], "conn": b["conn"][i], "fetch": bool(fetch[i]), "rerr": bool(rerr[i]),
+                      "hookfail": bool(hookfail[i])} for i in range(n)],
             "kv": kv, "fk": fk, "start": list(b["start"]), "steps": b["steps"],
             "predicted": {"wdata": b.get("wdata"), "wafter": b.get("wafter"), "stale": b.get("stale"), "late": b.get("late")}}
 
 
 def sched_hash(s):
-    return lib.sha([s["subs"], s["kv"], s.get("fk"), s["start"], s["steps"]])
+    return lib.sha([s["subs"], s["kv"], s.get("fk"), s.get("hooks"), s.get("sync"), s["start"], s["steps"]])
 
 
 def nontrivial(s):
@@ -163,6 +168,8 @@ def nontrivial(s):
 
 
 def generate(ctx, tag, cfgtext, rng, cap=None, simulate=None, depth=None, timeout=900, workers=8):
+    if rng is None:
+        rng = random.Random("%d-%s" % (ctx.seed, tag))
     d = spec_dir(ctx, {"Gen_Subs_%s.cfg" % tag: cfgtext})
     kw = dict(timeout=timeout, deadlock=False, workers=workers, tag="gen-" + tag)
     if simulate:
@@ -170,7 +177,7 @@ def generate(ctx, tag, cfgtext, rng, cap=None, simulate=None, depth=None, timeou
     g = ctx.tlc_must_pass(["conc", d], "Gen_Subs", "Gen_Subs_%s.cfg" % tag, **kw)
     uniq = {}
     for b in g.printed:
-        uniq[lib.sha([b["key"], b["filt"], b["conn"], b["start"], b.get("fetch"), b["steps"]])] = b
+        uniq[lib.sha([b["key"], b["filt"], b["conn"], b["start"], b.get("fetch"), b.get("rerr"), b.get("hooks"), b.get("hookfail"), b.get("sync"), b["steps"]])] = b
     beh = [uniq[k] for k in sorted(uniq)]
     total = len(beh)
     if cap is not None and len(beh) > cap:
@@ -336,6 +343,14 @@ def model_check(ctx, cfgs, negative):
         r = ctx.tlc("conc", "MC_Subs", cfg, timeout=900, workers=8, count=False, tag="mc-asis-negative")
         if r.violated not in expect:
             raise lib.Inconclusive("sanity: the as-is protocol (%s) should violate %s in the model, TLC said %r / %r" % (cfg, expect, r.violated, r.error))
+
+
+def generate_all(ctx, jobs, parallel=4):
+    """jobs: [(tag, cfgtext, kwargs)] -> {tag: (schedules, total)}; the TLC generator runs side by side, each family with its own rng"""
+    from concurrent.futures import ThreadPoolExecutor
+    with ThreadPoolExecutor(max_workers=parallel) as ex:
+        futs = [(tag, ex.submit(generate, ctx, tag, cfg, None, **dict(kw, workers=4))) for tag, cfg, kw in jobs]
+        return {tag: f.result() for tag, f in futs}
 
 
 def run_batches(ctx, prop, binary, batches):
